@@ -50,6 +50,11 @@ def ahandle (s : AState) (toks : List String) : AState × String :=
       let (s1, r) := astepOp { s with log := [] } o
       -- quiescent point: everything that is due at this very instant happens before the answer
       let s' := runUntil 100000 s1 s1.now
+      -- the model ran out of step fuel before the requested instant: say so instead of answering with a
+      -- truncated history (the harness stops comparing this scenario here; it is not a disagreement)
+      if (match o with | .run limit _ => (nextTask s' limit).isSome | _ => (nextTask s' s'.now).isSome) then
+        (s', "fuel-exhausted")
+      else
       (s', s!"R {showRes r} | E {" ; ".intercalate (s'.log.map showEv)} | J {" ; ".intercalate (s'.tasks.map (showATask s'))} | L {s'.logs} | T {s'.now}")
 
 end SV.Drv
